@@ -193,14 +193,18 @@ func AppendDefaultLabelsHandlerWrapper(ref string, prefetchSize int64) func(f im
 
 func appendWithValidation(key string, values []string) string {
 	var v string
-	for _, u := range values {
-		s := fmt.Sprintf("%s,", u)
-		if err := labels.Validate(key, v+s); err != nil {
+	for i, u := range values {
+		nv := u
+		if i > 0 {
+			nv = v + "," + u
+		}
+		// validate what will actually be stored (no trailing separator)
+		if err := labels.Validate(key, nv); err != nil {
 			break
 		}
-		v += s
+		v = nv
 	}
-	return strings.TrimSuffix(v, ",")
+	return v
 }
 
 // TODO: switch to "github.com/containerd/containerd/pkg/snapshotters" once all tools using
